@@ -130,6 +130,7 @@ class Engine(object):
         self.stdmods = {}
         self.call_depth = 0
         self.used_contracts = set()
+        self.verified_quals = set()
         self.in_coroutine = False
         self.yield_hook = None       # set by the coroutine layer (rely.py)
         self.feas_checks = 0
